@@ -67,6 +67,24 @@ CHECKS.update({
          "DESIGN.md section 3 C15"),
 })
 
+CHECKS.update({
+ "C11": ("exploration",
+         "runtime monitor with independent SUCI / PLMN decoders (TS 24.501 9.11.3.4, TS 38.413 9.3.3.5) over the enumeration of all PLMNs; NAS messages parsed by ref/nas, NGAP messages by ref/per",
+         "Every MCC 000..999 with all 2- and 3-digit MNCs (1.1M PLMNs, exhaustive in thorough) and a random MSIN of random legal length goes through the real EncodeSuci; samples additionally through the Registration/Deregistration Request constructors and through NG Setup + InitialUEMessage + UplinkNASTransport; decoded MCC/MNC/MSIN and PLMN octets must be the configured ones and agree with nasConvert.PlmnIDToNas.",
+         "Routing indicator / key id are outside the property; MSIN sampled (one per PLMN).",
+         "DESIGN.md section 3 C11"),
+ "C12": ("exploration",
+         "runtime monitor: reference-built PDU Session Resource Setup Requests (NAS by hand from TS 24.501 8.3.2, transfer via ref/per) against the real extraction functions; stall monitor with goroutine dump for the termination half",
+         "Well-formed inputs with every subset of the 9 optional Accept IEs in table order, QoS rule lengths 0..1500, bit-rate/TEID/IPv4 corners and optional trailing transfer IEs must yield exactly the encoded UE address, TEID and UPF address; mutated and random inputs must terminate (return or panic): a case without progress for 5 s is re-run alone for 20 s and reported with the goroutine dump.",
+         "IPv4 only, ASN.1 IE order in the transfer, table order in the Accept.",
+         "DESIGN.md section 3 C12"),
+ "C17": ("exploration",
+         "runtime reference-model monitor: conversion helpers against encodings written out from TS 24.501 / 23.003 / 38.414 / 24.008, with inverse round trips; PLMNs and AMF ids enumerated completely in thorough",
+         "All 1.1M PLMNs, all 256 SST x SD variants, all 2^24 AMF identifiers (thorough), IPv4/IPv6/dual-stack addresses and protocol-configuration-option lists of 0..40 units are pushed through the real helpers and compared with reference encodings; ToString(ToNgap(a)) and UnMarshal(Marshal(p)) must give back the input.",
+         "Only families with an inverse in this copy are round-tripped.",
+         "DESIGN.md section 3 C17"),
+})
+
 NOT_YET = {}
 
 def main():
